@@ -49,6 +49,10 @@ partial def showSchema : Schema → String
     "(allOf (" ++ " ".intercalate (refs.map encodeStr) ++ ") ("
       ++ " ".intercalate (ps.map (fun p => "(" ++ encodeStr p.1 ++ " " ++ showSchema p.2 ++ ")")) ++ ") ("
       ++ " ".intercalate (req.map encodeStr) ++ ") (" ++ " ".intercalate (xreq.map encodeStr) ++ "))"
+  | .disc one prop refs mp =>
+    -- (constructor added to Dcg.Sem.Schema by C03; inference never produces it)
+    "(disc " ++ (if one then "1" else "0") ++ " " ++ encodeStr prop ++ " (" ++ " ".intercalate (refs.map encodeStr) ++ ") ("
+      ++ " ".intercalate (mp.map (fun e => "(" ++ encodeStr e.1 ++ " " ++ encodeStr e.2 ++ ")")) ++ "))"
 
 partial def showLite : LJson → String
   | .null => "null"
